@@ -63,6 +63,7 @@ def path_history(rng, hid, length):
                 c = {"call": "open", "abi": abi, "dirfd": dirfd, "path": name or "a", "rawpath": raw or "a", "abs": False, "oflags": rng.choice([0, 1]), "rd": True, "wr": True,
                      "app": False, "parent": os.path.dirname(name or "a")}
             nextfd += 1
+        c["path_at_end"] = rng.random() < 0.2
         calls.append(c)
     return {"id": "p%d" % hid, "setup": setup, "calls": calls}
 
